@@ -393,6 +393,8 @@ def ref_open_tx_pipe(self, address):
 PRIMS = {
     "rf24:RF24._reg_read": "inline", "rf24:RF24._reg_write": "inline",
     "rf24:RF24._reg_write_bytes": "inline", "rf24:RF24._reg_read_bytes": "inline",
+    # a call to a sibling accessor is verified as part of the caller unless a contract is named for it
+    "rf24:RF24.*.getter": "inline",
 }
 
 A = Int()            # any integer (A-INT)
